@@ -161,6 +161,7 @@ def build_app(kind, size):
         app.add_route('/a/{x}/d/{z:int(2)}', Echo('d'))
         app.add_route('/e/{code:int}', Err())
         app.add_route('/w/{wid}', Widget())
+        app.add_route('/t/{when:dt}', Echo('t'))       # one converter INSTANCE serves every request on the route
         app.add_static_route('/st', static_dir())
         app.add_error_handler(AppError, handle)
     return app
@@ -230,6 +231,9 @@ REQS = {
     'v99': dict(method='POST', raw_path='/b/8', query='', headers=[('X-Rid', 'r-v99'), ('Content-Type', 'application/json; v=99')],
                 body=b'{"n": 99}'),
     # two broken JSON bodies: each client is told about ITS syntax error (position and kind differ)
+    # one route, one dt converter instance, two different timestamps
+    't1': dict(method='GET', raw_path='/t/2021-03-04T05:06:07Z', query='', headers=[('X-Rid', 'r-t1')]),
+    't2': dict(method='GET', raw_path='/t/2022-05-06T07:08:09Z', query='', headers=[('X-Rid', 'r-t2')]),
     'j1': dict(method='POST', raw_path='/a/7', query='', headers=[('X-Rid', 'r-j1'), ('Content-Type', 'application/json')],
                body=b'{"first": '),
     'j2': dict(method='POST', raw_path='/b/8', query='', headers=[('X-Rid', 'r-j2'), ('Content-Type', 'application/json')],
@@ -320,11 +324,15 @@ def thr_run_factory(size, names, level):
     # types -- bounded per-app memos (handler resolution) are then full / about to be recycled
     level, _, pre = level.partition('+pre')
     pre = int(pre) if pre else 0
+    # 'all-cold': like 'all', but the racing requests are the app's first ever (lazy compile, lazily merged tables ...)
+    cold = level == 'all-cold'
+    if cold:
+        level = 'all'
     select = make_select(level)
 
     def run(ch):
         app = build_app('wsgi', size)
-        if level == 'all':
+        if level == 'all' and not cold:
             wsgi_req(app, 'nf')        # the lazy compile race is the 'router' configurations' subject
         for i in range(1, pre + 1):
             wsgid.call(app, method='POST', raw_path='/a/7', body=b'{"n": 1}',
@@ -596,7 +604,7 @@ def seq_batch(batch, rep):
 
 # ---------------------------------------------------------------------------
 # requests left out of the length-4 histories of the thorough tier (they take part in every history of length <= 3)
-K4_SKIP = {'a2', 'bx', 'd', 'p2', 'u2', 'o', 'w2', 'm2', 's2', 'v1', 'v99', 'j2'}
+K4_SKIP = {'a2', 'bx', 'd', 'p2', 'u2', 'o', 'w2', 'm2', 's2', 'v1', 'v99', 'j2', 't2'}
 
 
 def plan(tier, seed):
@@ -610,13 +618,15 @@ def plan(tier, seed):
                     ('full', ('s1', 's2'), 'all', 1),
                     # a memoised resolution (v=1) next to a never-seen content type, the per-app memo holding 63 / 64 entries
                     ('full', ('v1', 'v99'), 'all+pre63', 1), ('full', ('v1', 'v99'), 'all+pre64', 1),
-                    ('full', ('j1', 'j2'), 'all', 1)]
+                    ('full', ('j1', 'j2'), 'all', 1), ('full', ('t1', 't2'), 'all', 1),
+                    # first-ever requests that fall through the router to the static route
+                    ('full', ('s1', 's2'), 'all-cold', 1)]
         aio_cfgs = [('full', ('j1', 'j2'), True), ('full', ('a1', 'b2'), False), ('full', ('p1', 'p2'), False), ('full', ('p1', 'e1'), True), ('full', ('c', 'e2'), False),
                     # dependent middleware mode: a request rejected half-way down the stack while another is parked at an await
                     ('dep', ('p1', 'deny'), True), ('dep', ('deny', 'p2'), True),
                     # three requests in flight: every interleaving with <=3 departures from the default order
                     ('full', ('a1', 'p1', 'e2'), False, 3), ('dep', ('p1', 'deny', 'a1'), True, 2)]
-        names = ['a1', 'b2', 'c', 'e1', 'e2', 'p1', 'pq', 'nf', 'm', 'm2', 'e3', 'w1', 'w2', 's1', 'j1']
+        names = ['a1', 'b2', 'c', 'e1', 'e2', 'p1', 'pq', 'nf', 'm', 'm2', 'e3', 'w1', 'w2', 's1', 'j1', 't1']
         perm_k = 3
     else:
         thr_cfgs = [('small', ('a1', 'b2', 'nf'), 'router', 2), ('full', ('c', 'd'), 'router', 2),
@@ -627,7 +637,9 @@ def plan(tier, seed):
                     ('full', ('e3', 'm'), 'all', 1), ('full', ('w1', 'nf'), 'all', 1), ('full', ('s1', 's2'), 'all', 1),
                     ('full', ('s1', 'a1'), 'all', 1), ('full', ('u1', 'u2'), 'all', 2),
                     ('full', ('v1', 'v99'), 'all+pre63', 1), ('full', ('v1', 'v99'), 'all+pre64', 1), ('full', ('v1', 'v99'), 'all+pre65', 1),
-                    ('full', ('v99', 'v1'), 'all+pre64', 1), ('full', ('j1', 'j2'), 'all', 1), ('full', ('j2', 'p1'), 'all', 1)]
+                    ('full', ('v99', 'v1'), 'all+pre64', 1), ('full', ('j1', 'j2'), 'all', 1), ('full', ('j2', 'p1'), 'all', 1),
+                    ('full', ('t1', 't2'), 'all', 1), ('full', ('s1', 's2'), 'all-cold', 1), ('full', ('s1', 'nf'), 'all-cold', 1),
+                    ('full', ('t1', 't2'), 'all', 2)]
         aio_cfgs = [('full', ('j1', 'j2'), True), ('full', ('j1', 'j2'), False), ('full', ('a1', 'b2'), False), ('full', ('p1', 'p2'), True), ('full', ('p1', 'e1'), True), ('full', ('c', 'e2'), False),
                     # three requests in flight: the full interleaving space has 7.4e5 members per configuration (measured;
                     # 6 min each on 16 cores) -- explored here up to 5 (4) departures from the default order instead
